@@ -374,4 +374,12 @@ class ReportBase(ABC):
         if callable(expr):
             result = expr(query)
             return bool(result)
+        if isinstance(expr, str):
+            # The parser stores filter expressions as text. The two constants of the expression
+            # language must not be decided by the truthiness of their spelling.
+            text = expr.strip()
+            if text == "@none":
+                return False
+            if text == "@all":
+                return True
         return bool(expr)
